@@ -208,3 +208,6 @@ SUBCHECKS = [
     SubCheck("spend", o_spend, strategy=G.spend_cases, budget=(12000, 1000000), nontrivial=nt,
              rule="spends of bare/P2SH/P2WSH/P2SH-P2WSH/P2WPKH/P2SH-P2WPKH and raw scriptPubKeys, signature templates valid by construction then perturbed, witness/scriptSig/program mutations: Tx.check_solution vs reference VerifyScript (verdict); non-trivial = reference executed >= 1 non-push opcode"),
 ]
+
+# thorough tier: coverage-guided campaigns (runs per worker, 4 workers each)
+FUZZ = {"eval": 60000, "spend": 40000}
